@@ -46,7 +46,7 @@ def cases(draw):
     rational = draw(st.integers(0, 3)) == 0
     variant = draw(st.sampled_from(
         ["same", "same", "perturbed", "perturbed", "interval", "weights-const", "weights-scaled",
-         "weight-changed", "noncurve", "independent", "independent"]))
+         "weight-changed", "noncurve", "independent", "independent", "alike", "alike"]))
     heavy = rational or variant.startswith("weight")
     # rational comparison multiplies numerators and denominators exactly: keep those cases small
     if heavy:
@@ -147,6 +147,21 @@ def check(case, out):
     if variant == "interval":
         U2 = [u + 1 for u in U2]
     b = b0 if variant == "independent" else oracle.refine_state(b0, U2, p2)
+    if variant == "alike":
+        # two representations that look alike: same degree, same number of control points, same distinct knots,
+        # but the extra knot copy sits at another knot (the same curve - or a perturbed one - refined differently)
+        elig = [z for z in oracle.breaks(a0.U)[1:-1] if oracle.mult(a0.U, z) <= a0.p]
+        if len(elig) >= 2:
+            z1 = elig[case["index"] % len(elig)]
+            z2 = elig[(case["index"] + 1) % len(elig)]
+            if case["index"] % 3 == 0:
+                i = case["index"] % b0.n
+                pt = list(b0.P[i])
+                pt[0] += case["delta"]
+                b0.P[i] = tuple(pt)
+            a = oracle.refine_state(a0, sorted(a0.U + [z1]), a0.p)
+            b = oracle.refine_state(b0, sorted(b0.U + [z2]), b0.p)
+            out.cls("alike-representations")
     kindB = "rational" if b.w is not None else "polynomial"
     out.cls("B=" + kindB)
     # ---- expected answer, decided by the reference
